@@ -80,7 +80,8 @@ func verifyFunc(w *World, key string) *FuncResult {
 		return res
 	}
 	g := newGen(w, fn, fc)
-	g.panicsNever = fc.PanicsNever
+	g.panicsNever = fc.PanicsNever || fc.OwnPanicsNever
+	g.ownOnly = fc.OwnPanicsNever && !fc.PanicsNever
 	func() {
 		defer func() {
 			if r := recover(); r != nil {
@@ -156,7 +157,7 @@ func verifyFunc(w *World, key string) *FuncResult {
 			post["result"] = results[0]
 		}
 		for i, c := range fc.Ensures {
-			env := &Env{g: g, st: exit, old: g.entry, vars: post, pkgPath: pkgPath}
+			env := &Env{g: g, st: exit, old: g.entry, vars: post, pkgPath: pkgPath, fr: fr, inBody: true}
 			t := env.evalBool(c.E)
 			g.addOblig(exit, "post", "post."+clauseName(c, i), t, c.Src)
 		}
